@@ -6,7 +6,6 @@ import glob, json, os, shutil, subprocess, sys, tempfile
 
 ROOT = os.environ.get("VERIF_ROOT", "/verif")
 env = dict(os.environ, PYTHONDONTWRITEBYTECODE="1")
-only = sys.argv[1:]
 
 
 def sh(cmd, cwd=None, extra=None):
@@ -21,38 +20,66 @@ def copy_repo():
 
 
 head = sh("git -C /repo log --oneline | head -1")[1].split()[0]
+jobs = int(os.environ.get("REVERIFY_JOBS", "3"))
+only = [a for a in sys.argv[1:] if not a.startswith("--")]
+skip_done = "--skip-done" in sys.argv  # seeds whose meta.json already records this repository head
 clean = copy_repo()
+
+
+def run_check(cid, mut, fast):
+    extra = {"VERIF_REPO": mut}
+    if fast:
+        extra["VERIF_NO_OPTPASS"] = "1"
+    rc, out = sh(f"./check {cid} --tier quick", cwd=ROOT, extra=extra)
+    line = next((l for l in out.splitlines() if " violated" in l), "")
+    return {"exit": rc, "verdict": "CAUGHT" if rc == 1 and "VIOLATION property=" in out else ("MISSED" if rc == 0 else f"ERROR({rc})"), "first_violation": line.strip()[:400]}
+
+
+def verify(meta_path):
+    d = os.path.dirname(meta_path)
+    meta = json.load(open(meta_path))
+    if only and meta["seed"] not in only:
+        return None
+    if skip_done and meta.get("reverified", {}).get("repo_head") == head:
+        return None
+    mut = copy_repo()
+    try:
+        rc, out = sh(f"patch -p1 -s < {d}/patch.diff", cwd=mut)
+        if rc != 0:
+            meta["reverified"] = {"repo_head": head, "patch_applies": False}
+            json.dump(meta, open(meta_path, "w"), indent=1)
+            return (False, f"{meta['seed']} PATCH DOES NOT APPLY to the current tree")
+        _, t = sh(f"PYTHONPATH={mut}/src:{mut} /venv/bin/python -m pytest -q -p no:cacheprovider --continue-on-collection-errors tests 2>&1 | tail -1", cwd=mut)
+        rc_clean, _ = sh(f"/venv/bin/python -B {d}/demo.py {clean}", cwd="/tmp")
+        rc_mut, _ = sh(f"/venv/bin/python -B {d}/demo.py {mut}", cwd="/tmp")
+        res = {}
+        for cid in meta["checks"]:
+            # first without the -OO repetition (half the work); a check that stays silent is run again in full
+            r = run_check(cid, mut, True)
+            if r["verdict"] != "CAUGHT":
+                r = run_check(cid, mut, False)
+            res[cid] = r
+        caught_by = meta.get("caught_by") or meta["property"]
+        ok = "140 passed" in t and rc_clean == 0 and rc_mut != 0 and res.get(caught_by, {}).get("verdict") == "CAUGHT"
+        meta["checks"] = res
+        meta["reverified"] = {"repo_head": head, "patch_applies": True, "repo_suite_with_patch": t.strip(), "demo_exit_unchanged": rc_clean, "demo_exit_patched": rc_mut}
+        json.dump(meta, open(meta_path, "w"), indent=1)
+        return (ok, f"{meta['seed']} {({c: r['verdict'] for c, r in res.items()})} | {t.strip()} | demo {rc_clean} {rc_mut}" + ("" if ok else "  <-- ATTENTION"))
+    finally:
+        shutil.rmtree(mut, ignore_errors=True)
+
+
 bad = 0
 try:
-    for meta_path in sorted(glob.glob(f"{ROOT}/seeded/*/meta.json")):
-        d = os.path.dirname(meta_path)
-        meta = json.load(open(meta_path))
-        if only and meta["seed"] not in only:
-            continue
-        mut = copy_repo()
-        try:
-            rc, out = sh(f"patch -p1 -s < {d}/patch.diff", cwd=mut)
-            if rc != 0:
-                print(meta["seed"], "PATCH DOES NOT APPLY to the current tree")
-                meta["reverified"] = {"repo_head": head, "patch_applies": False}
-                bad += 1
-            else:
-                _, t = sh(f"PYTHONPATH={mut}/src:{mut} /venv/bin/python -m pytest -q -p no:cacheprovider --continue-on-collection-errors tests 2>&1 | tail -1", cwd=mut)
-                rc_clean, _ = sh(f"/venv/bin/python -B {d}/demo.py {clean}", cwd="/tmp")
-                rc_mut, _ = sh(f"/venv/bin/python -B {d}/demo.py {mut}", cwd="/tmp")
-                res = {}
-                for cid in meta["checks"]:
-                    rc, out = sh(f"./check {cid} --tier quick", cwd=ROOT, extra={"VERIF_REPO": mut})
-                    line = next((l for l in out.splitlines() if " violated" in l), "")
-                    res[cid] = {"exit": rc, "verdict": "CAUGHT" if rc == 1 and "VIOLATION property=" in out else ("MISSED" if rc == 0 else f"ERROR({rc})"), "first_violation": line.strip()[:400]}
-                ok = "140 passed" in t and rc_clean == 0 and rc_mut != 0 and res[meta["property"]]["verdict"] == "CAUGHT"
-                bad += 0 if ok else 1
-                meta["checks"] = res
-                meta["reverified"] = {"repo_head": head, "patch_applies": True, "repo_suite_with_patch": t.strip(), "demo_exit_unchanged": rc_clean, "demo_exit_patched": rc_mut}
-                print(meta["seed"], {c: r["verdict"] for c, r in res.items()}, "|", t.strip(), "| demo", rc_clean, rc_mut, "" if ok else "  <-- ATTENTION")
-            json.dump(meta, open(meta_path, "w"), indent=1)
-        finally:
-            shutil.rmtree(mut, ignore_errors=True)
+    from concurrent.futures import ThreadPoolExecutor
+
+    with ThreadPoolExecutor(max_workers=jobs) as ex:
+        for r in ex.map(verify, sorted(glob.glob(f"{ROOT}/seeded/*/meta.json"))):
+            if r is None:
+                continue
+            ok, line = r
+            print(line, flush=True)
+            bad += 0 if ok else 1
 finally:
     shutil.rmtree(clean, ignore_errors=True)
 sys.exit(1 if bad else 0)
